@@ -8,7 +8,7 @@
    wf_prog = "parser shaped": a tree the parser can produce                            (Proof/FmtDefs.v)
    zsafe_prog = no `if` has a literal 0 adjacent to its comparison operator            (Model/FmtClass.v) *)
 From Coq Require Import List ZArith NArith String Bool.
-From SCC Require Import Lang.FunSyn Model.Printer Model.Parser Model.FmtClass Proof.FmtDefs Proof.FmtLex Proof.FmtProof.
+From SCC Require Import Lang.FunSyn Model.Printer Model.Parser Model.Pretty Model.FmtClass Proof.FmtDefs Proof.FmtLex Proof.FmtPretty Proof.FmtProof.
 
 (* Layout independence.  [renders d s]: s arises from the document d by writing every atom as its text,
    every space / line / hardline as ANY non-empty string of blanks and every line_ as ANY string of
@@ -84,3 +84,23 @@ Theorem C16_idempotent_text_guarded :
     option_map (d_prog c2) (parse_text s) = Some (d_prog c2 p).
 Proof. exact idempotent_text_guarded. Qed.
 Print Assumptions C16_idempotent_text_guarded.
+
+(* The layout algorithm of the `pretty` crate as modelled in Model/Pretty.v (compared with the real
+   output byte for byte on every run) produces one of the layouts quantified over above; so for the
+   modelled formatter itself:  parse (format p) = p  and  format (parse (format p)) = format p. *)
+Theorem C16_pretty_layout_is_a_rendering :
+  forall width d, renders d (render width d).
+Proof. exact render_renders. Qed.
+Print Assumptions C16_pretty_layout_is_a_rendering.
+
+Theorem C16_roundtrip_pretty_guarded :
+  forall c p, wf_prog p = true -> zsafe_prog p = true -> parse_text (render (pwidth c) (d_prog c p)) = Some p.
+Proof. exact roundtrip_pretty_guarded. Qed.
+Print Assumptions C16_roundtrip_pretty_guarded.
+
+Theorem C16_idempotent_pretty_guarded :
+  forall c p, wf_prog p = true -> zsafe_prog p = true ->
+    option_map (fun q => render (pwidth c) (d_prog c q)) (parse_text (render (pwidth c) (d_prog c p)))
+    = Some (render (pwidth c) (d_prog c p)).
+Proof. exact idempotent_pretty_guarded. Qed.
+Print Assumptions C16_idempotent_pretty_guarded.
